@@ -106,8 +106,15 @@ structure Proto where
   checkOk : Bool
   deriving DecidableEq, Repr
 
-/-- The code at the pinned commit (tied to go/ast facts and an evaluation by `C07_proto_is_code`). -/
-def codeProto : Proto := { guard := false, useCas := true, checkOk := true }
+/-- The protocol without the overflow guard: consistent read, CAS on the index read, answer checked. -/
+def wrappingProto : Proto := { guard := false, useCas := true, checkOk := true }
+
+/-- The same with the guard of notes/C07.fix.patch. -/
+def guardedProto : Proto := { guard := true, useCas := true, checkOk := true }
+
+/-- The code at the pinned commit (tied to go/ast facts and an evaluation by the `C07_*_is_code`
+    theorems). When the fix is applied this becomes `guardedProto` — nothing else changes. -/
+def codeProto : Proto := wrappingProto
 
 /-- One call of `GetNextUInt32` by caller `c`. -/
 inductive CState where
